@@ -261,7 +261,7 @@ type scenario struct {
 }
 
 var terminators = []string{"peer-close", "stream-error", "handler-error", "deadline", "transport-eof"}
-var forced = []string{"X1a", "X1b", "X2", "X3", "X4", "X5a", "X5b", "X5c", "X6", "X7", "X8", "X9", "X10", "X11", "X12", "X13", "X14"}
+var forced = []string{"X1a", "X1b", "X2", "X3", "X4", "X5a", "X5b", "X5c", "X6", "X7", "X8", "X9", "X10", "X11", "X12", "X13", "X14", "X15"}
 
 func run(c *core.Case) {
 	if c.Index < len(forced)*2 {
@@ -272,14 +272,15 @@ func run(c *core.Case) {
 }
 
 type world struct {
-	c       *core.Case
-	p       *sess.Pair
-	h       *hist
-	o       sess.Opts
-	serveCh chan error
-	loop    *sess.PeerLoop
-	termAt  atomic.Int64
-	serveAt atomic.Int64 // logical time at which Serve returned
+	c          *core.Case
+	p          *sess.Pair
+	h          *hist
+	o          sess.Opts
+	serveCh    chan error
+	startServe func()
+	loop       *sess.PeerLoop
+	termAt     atomic.Int64
+	serveAt    atomic.Int64 // logical time at which Serve returned
 
 	tee           *failingTee  // the session's XML console (nil: none); fails once armed
 	cancelledSend bool         // deadline terminator: a transmit with a context that is over follows SetCloseDeadline
@@ -293,6 +294,12 @@ type world struct {
 func newWorld(c *core.Case, o sess.Opts) *world { return newWorldLoop(c, o, true) }
 
 func newWorldLoop(c *core.Case, o sess.Opts, withLoop bool) *world {
+	return newWorldOpt(c, o, withLoop, false)
+}
+
+// newWorldOpt: with holdServe the serve goroutine is only started by
+// w.startServe (scenarios in which the application does something first).
+func newWorldOpt(c *core.Case, o sess.Opts, withLoop, holdServe bool) *world {
 	p, err := sess.NewPair(o)
 	if err != nil {
 		c.Inconclusive("cannot build session: %v", err)
@@ -308,6 +315,27 @@ func newWorldLoop(c *core.Case, o sess.Opts, withLoop bool) *world {
 					// any buffer between the session and the connection
 					n, _ := strconv.Atoi(a.Value)
 					return stream.Error{Err: "policy-violation", Text: []struct{ Lang, Value string }{{Lang: "en", Value: strings.Repeat("é", n)}}}
+				}
+			}
+			// the error has one of several shapes; none of them is the peer closing
+			// its stream, whatever sentinel it wraps
+			for _, a := range start.Attr {
+				if a.Name.Local == "shape" {
+					c.Count("handler_errors_of_shape_"+a.Value, 1)
+					switch a.Value {
+					case "wrap-eof":
+						return fmt.Errorf("verif: reading the payload: %w", io.EOF)
+					case "wrap-unexpected-eof":
+						return fmt.Errorf("verif: reading the payload: %w", io.ErrUnexpectedEOF)
+					case "wrap-closed-pipe":
+						return fmt.Errorf("verif: writing the reply: %w", io.ErrClosedPipe)
+					case "wrap-output-closed":
+						return fmt.Errorf("verif: writing the reply: %w", xmpp.ErrOutputStreamClosed)
+					case "wrap-input-closed":
+						return fmt.Errorf("verif: reading: %w", xmpp.ErrInputStreamClosed)
+					case "wrap-canceled":
+						return fmt.Errorf("verif: waiting: %w", context.Canceled)
+					}
 				}
 			}
 			return errors.New("verif: handler failure requested by the peer")
@@ -343,14 +371,19 @@ func newWorldLoop(c *core.Case, o sess.Opts, withLoop bool) *world {
 		}
 		return nil
 	})
-	go func() {
-		var err error
-		if c.Guard("Serve", func() { err = p.S.Serve(handler) }) {
-			err = errors.New("panic")
-		}
-		w.serveAt.Store(w.h.clock.Add(1))
-		w.serveCh <- err
-	}()
+	w.startServe = func() {
+		go func() {
+			var err error
+			if c.Guard("Serve", func() { err = p.S.Serve(handler) }) {
+				err = errors.New("panic")
+			}
+			w.serveAt.Store(w.h.clock.Add(1))
+			w.serveCh <- err
+		}()
+	}
+	if !holdServe {
+		w.startServe()
+	}
 	if withLoop {
 		w.loop = sess.RunPeerLoop(p.Peer, func(n *xmltree.Node) {
 			if n.Name.Local == "iq" && (n.Attr("type") == "get" || n.Attr("type") == "set") {
@@ -410,7 +443,8 @@ func (w *world) terminate(kind string) {
 			w.c.Count("terminators_with_a_stream_error_larger_than_the_output_buffer", 1)
 			w.p.Send(fmt.Sprintf(`<fail xmlns='urn:verif:c10' n='%d'/>`, w.errText))
 		} else {
-			w.p.Send(`<fail xmlns='urn:verif:c10'/>`)
+			shapes := []string{"plain", "plain", "wrap-eof", "wrap-eof", "wrap-unexpected-eof", "wrap-closed-pipe", "wrap-output-closed", "wrap-input-closed", "wrap-canceled"}
+			w.p.Send(fmt.Sprintf(`<fail xmlns='urn:verif:c10' shape='%s'/>`, shapes[w.c.Index%len(shapes)]))
 		}
 	case "transport-eof":
 		// the connection ends without the peer having closed its stream: the
@@ -1069,6 +1103,53 @@ func runCloseDeadlineDuringLoop(c *core.Case, s2s bool) {
 	w.finish("peer-close", smp)
 }
 
+// runCloseWhileShutdownWaitsForInput is scenario X15: the application holds a
+// token reader (and with it the input stream) and the close deadline has
+// already passed when Serve starts, so Serve leaves its loop at once and its
+// shutdown has to wait for the input stream; meanwhile the application closes
+// the session (the closing tag is written), then gives the reader back.
+// Serve's own shutdown must find the output closed: one closing tag, both
+// directions closed, Serve reports the deadline.
+func runCloseWhileShutdownWaitsForInput(c *core.Case, s2s bool) {
+	smp := &sample{Kind: "X15", S2S: s2s, Terminator: "deadline", Closers: 1}
+	c.Sample(smp)
+	w := newWorldOpt(c, sess.Opts{S2S: s2s}, true, true)
+	if w == nil {
+		return
+	}
+	before := stall.Snapshot(nil)
+	rc := w.p.S.TokenReader()
+	e := w.h.begin("app", "setclosedeadline", "")
+	err := w.p.S.SetCloseDeadline(time.Now().Add(-time.Second))
+	w.h.end(e, fmt.Sprint(err), "")
+	w.startServe()
+	// wait until Serve's shutdown is parked behind the input stream (or Serve
+	// has returned, if an implementation does not wait there)
+	parked := false
+	for deadline := time.Now().Add(5 * time.Second); time.Now().Before(deadline) && !parked; time.Sleep(2 * time.Millisecond) {
+		if w.serveAt.Load() != 0 {
+			break
+		}
+		for id, p := range stall.Snapshot(nil) {
+			if _, old := before[id]; !old && strings.Contains(p.Stack, ".Serve") && strings.Contains(p.State, "Mutex") {
+				parked = true
+			}
+		}
+	}
+	if parked {
+		c.Count("X15_serve_shutdown_parked_behind_held_input", 1)
+	}
+	e = w.h.begin("closer1", "close", "")
+	var cerr error
+	c.Guard("Close", func() { cerr = w.p.S.Close() })
+	w.closed()
+	w.h.end(e, fmt.Sprint(cerr), "")
+	rc.Close()
+	c.Count("forced_scenarios", 1)
+	c.Count("close_while_shutdown_waits_for_input_scenarios", 1)
+	w.finish("deadline", smp)
+}
+
 // runExtendedDeadline is scenario X10: the application sets a short close
 // deadline and then moves it far into the future; the peer keeps talking past
 // the first instant and then closes its stream.  Only the deadline in force
@@ -1200,6 +1281,10 @@ func runForced(c *core.Case, id string, s2s bool) {
 	}
 	if id == "X8" {
 		runCloseDeadlineDuringLoop(c, s2s)
+		return
+	}
+	if id == "X15" {
+		runCloseWhileShutdownWaitsForInput(c, s2s)
 		return
 	}
 	smp := &sample{Kind: id, S2S: s2s}
@@ -1481,7 +1566,7 @@ func Prop() *core.Prop {
 		Run: run,
 		Require: []string{"forced_scenarios", "stress_histories", "closed_then_large_stream_error_scenarios", "close_deadline_then_cancelled_transmit_scenarios", "cancelled_transmits_after_setclosedeadline", "sessions_whose_xml_console_fails_at_close_time", "readers_after_serve_returned", "second_serve_returned", "terminators_with_a_stream_error_larger_than_the_output_buffer", "close_under_write_fault", "close_returns_with_wire_snapshot", "synchronous_transport_closes", "cancelled_sender_deadline_scenarios", "close_deadline_during_loop_scenarios", "close_vs_default_reply_scenarios", "close_deadline_extended_scenarios", "transmits_queued_behind_blocked_close_scenarios", "unanswered_iqs_injected", "x9_close_queued_behind_writer", "x9_default_reply_queued_behind_writer", "layered_transport_histories", "layered_transport_close_deadline", "yield:close.enter", "yield:senderr.enter", "transmits_overlapping_a_close",
 			"transmits_begun_after_a_close_returned", "late_transmits", "porcupine_checks",
-			"serve_returned:peer-close", "serve_returned:stream-error", "serve_returned:handler-error", "serve_returned:deadline", "serve_returned:transport-eof"},
+			"close_while_shutdown_waits_for_input_scenarios", "handler_errors_of_shape_wrap-eof", "handler_errors_of_shape_plain", "serve_returned:peer-close", "serve_returned:stream-error", "serve_returned:handler-error", "serve_returned:deadline", "serve_returned:transport-eof"},
 		ReplayRepeats: 10,
 		CaseTimeout:   150 * time.Second,
 	}
